@@ -92,7 +92,7 @@ hist_check!(
     C12,
     "C12",
     Focus::C12,
-    |g: &GenCfg| DmlCfg { tables: 3, pk: true, fks: true, self_fk: false, not_null: true, inline_fk: true, setnull_on_notnull: !g.avoiding("c12.orphan.after_failed_update") && !g.avoiding("c12.orphan.after_failed_delete"), ..base() },
+    |g: &GenCfg| DmlCfg { tables: 3, pk: true, fks: true, self_fk: !(g.avoid_known && g.known_open.iter().any(|k| k.contains("self_reference"))), not_null: true, inline_fk: true, setnull_on_notnull: !g.avoiding("c12.orphan.after_failed_update") && !g.avoiding("c12.orphan.after_failed_delete"), ..base() },
     400_000,
     10_000_000,
     14,
